@@ -332,6 +332,16 @@ def mujoco_part(ck):
         if len(plain) + len(contact) + len(fwd) > 1:
             plain.pop("reward", None)         # the total is a consequence of the component reported next to it
         wc = lambda c: {"env": name, "component": c["name"], "phase": c["phase"], **(c.get("worst") or {})}  # noqa: E731
+        base = name.split("(")[0]
+        if base != name and base in res.get("envs", {}):
+            # a constructor-option variant failing on a component on which the default-constructed environment fails as well is
+            # the same defect at the same code site: it is reported once, under the default environment's signature
+            base_fail = {c["name"] for c in res["envs"][base].get("components", []) if not c["ok"]}
+            same = [n for n in list(plain) if n in base_fail]
+            for n in same:
+                plain.pop(n)
+            if same:
+                summ.setdefault("same_failure_as_default_constructor", []).extend(same)
         for n, c in plain.items():
             ck.violations.append(Violation(
                 "impl-violates-property", f"C17/mujoco-step/{name}/{n}",
